@@ -64,6 +64,7 @@ def parseFn (f k : String) : Option Fn := do
   | "lin" => some (.lin ki)
   | "pair" => some .pair
   | "split" => some .split
+  | "loop" => some (.loop ki.toNat)
   | _ => none
 
 def parseWord (sp : Spec) (w : String) : Option Spec :=
